@@ -34,10 +34,13 @@ ChannelOK(eoe, asked0, out, usage) ==
 (***************************************************************************)
 \* exception classes; "Loader" = get_loader_exceptions() of the parser mode (_loaders_dumpers.py:148-160),
 \* "PathError" is a TypeError subclass, "NSKeyError" a KeyError subclass, "ArgparseError" = argparse.ArgumentError
-Classes == {"TypeError", "PathError", "KeyError", "ValueError", "ArgparseError", "Loader", "AttributeError", "ImportError",
-            "RecursionError", "OSError", "IndexError", "AssertionError", "OverflowError", "SystemExit", "Other"}
+\* "UnicodeError" is a ValueError subclass (UnicodeDecodeError), "OverflowError" and "InvalidOperation"
+\* (decimal.InvalidOperation) are ArithmeticError subclasses
+Classes == {"TypeError", "PathError", "KeyError", "NSKeyError", "ValueError", "UnicodeError", "ArgparseError", "Loader", "AttributeError", "ImportError",
+            "RecursionError", "OSError", "IndexError", "AssertionError", "ArithmeticError", "OverflowError", "InvalidOperation", "SystemExit", "Other"}
 IsA(cls, base) == cls = base \/ (cls = "PathError" /\ base = "TypeError") \/ (base = "Exception" /\ cls # "SystemExit")
-                  \/ (cls = "ImportError" /\ FALSE)
+                  \/ (cls = "NSKeyError" /\ base = "KeyError") \/ (cls = "UnicodeError" /\ base = "ValueError")
+                  \/ (cls \in {"OverflowError", "InvalidOperation"} /\ base = "ArithmeticError")
 Catches(frame, cls) == \E b \in frame.catch : IsA(cls, b)
 Fr(name, catch, to) == [name |-> name, catch |-> catch, to |-> to]     \* to: a class that travels on, or "error" (ArgumentParser.error)
 
@@ -55,6 +58,10 @@ F_validate      == Fr("validate: except (TypeError, KeyError) -> same class with
 F_default_cfg   == Fr("get_defaults: except (TypeError, KeyError, argparse.ArgumentError) -> ArgumentError  [_core.py:1044]", {"TypeError", "KeyError", "ArgparseError"}, "ArgparseError")
 F_value_key     == Fr("_check_value_key (plain type=): except (TypeError, ValueError) -> TypeError  [_core.py:1439]", {"TypeError", "ValueError"}, "TypeError")
 F_path_resolve  == Fr("parse_path: except TypeError around Path(cfg_path) -> self.error  [_core.py:620-623, fix 3bf3b7b]", {"TypeError"}, "error")
+F_path_read     == Fr("parse_path: except (OSError, UnicodeError) around fpath.get_content() -> self.error  [_core.py:629-632, fix 00b82b0]", {"OSError", "UnicodeError"}, "error")
+F_float_conv    == Fr("adapt_typehints leaf: except OverflowError around float(val) -> ValueError  [_typehints.py:785-788, fix 02016da]", {"OverflowError"}, "ValueError")
+F_registered    == Fr("RegisteredType.deserializer: except self.deserializer_exceptions (default ValueError, TypeError, AttributeError) -> ValueError  [typing.py:285-292]", {"ValueError", "TypeError", "AttributeError"}, "ValueError")
+F_registered_dec == Fr("RegisteredType.deserializer of decimal.Decimal: except (ValueError, TypeError, AttributeError, ArithmeticError) -> ValueError  [typing.py:387-389, fix 4bbf74f]", {"ValueError", "TypeError", "AttributeError", "ArithmeticError"}, "ValueError")
 F_env_list      == Fr("_load_env_vars: except get_loader_exceptions() (list value kept as text)  [_core.py:551]", {"Loader"}, "swallowed")
 
 \* stages: where a failure originates, with the frames around it from the INSIDE out, per parse method
@@ -64,6 +71,11 @@ StagesOf(m) ==
   CASE m = "parse_args" ->
         {Stage("adapt a command line value (adapt_typehints under _check_type)", <<F_check_type, F_parse_method>>, {"TypeError", "ValueError", "PathError"}),
          Stage("adapt a Union member", <<F_union_loop, F_check_type, F_parse_method>>, {"TypeError", "ValueError", "KeyError", "PathError", "ImportError", "AttributeError", "Other"}),
+         Stage("convert an int to float (float(val) in the leaf branch)", <<F_float_conv, F_check_type, F_parse_method>>, {"OverflowError"}),       \* before fix 02016da: <<F_check_type, F_parse_method>>
+         Stage("deserialise a registered type", <<F_registered, F_check_type, F_parse_method>>, {"ValueError", "TypeError", "AttributeError"}),
+         Stage("deserialise a decimal.Decimal", <<F_registered_dec, F_check_type, F_parse_method>>, {"ValueError", "TypeError", "InvalidOperation"}),  \* before fix 4bbf74f: F_registered
+         Stage("read the file of --cfg (Path.get_content in parse_path)", <<F_path_read, F_parse_method>>, {"OSError", "UnicodeError"}),               \* apply_config calls parse_path in the `else:` of its try (:206-207), outside its own handlers; before fix 00b82b0: <<F_parse_method>>, which does not catch a ValueError
+         Stage("select the sub-command named in a config (get_subcommands)", <<F_parse_method>>, {"NSKeyError"}),                                      \* before fix 4f4bba8 an unknown name gave AttributeError later on
          Stage("an action's __call__ outside _check_type (argparse machinery)", <<F_known_args, F_parse_method>>, {"ArgparseError", "TypeError", "KeyError"}),
          Stage("load the text of --cfg (load_value in _load_config_parser_mode)", <<F_load_config, F_apply_config, F_parse_method>>, {"Loader"}),
          Stage("resolve the path of --cfg (Path in apply_config)", <<F_cfg_path, F_parse_method>>, {"PathError", "TypeError"}),
@@ -76,20 +88,31 @@ StagesOf(m) ==
     [] m = "parse_object" ->
         {Stage("turn the object into a namespace (_apply_actions: Namespace(cfg))", <<F_parse_method>>, {"TypeError", "KeyError"}),
          Stage("adapt a value of the object", <<F_check_type, F_parse_method>>, {"TypeError", "ValueError"}),
+         Stage("convert an int to float (float(val) in the leaf branch)", <<F_float_conv, F_check_type, F_parse_method>>, {"OverflowError"}),
+         Stage("deserialise a registered type", <<F_registered, F_check_type, F_parse_method>>, {"ValueError", "TypeError", "AttributeError"}),
+         Stage("deserialise a decimal.Decimal", <<F_registered_dec, F_check_type, F_parse_method>>, {"ValueError", "TypeError", "InvalidOperation"}),
+         Stage("select the sub-command named in a config (get_subcommands)", <<F_parse_method>>, {"NSKeyError"}),
          Stage("apply parsing links", <<F_links, F_parse_method>>, {"TypeError", "KeyError", "ValueError", "AttributeError", "Other"}),
          Stage("validate", <<F_validate, F_parse_method>>, {"TypeError", "KeyError"})}
     [] m = "parse_string" ->
         {Stage("load the text (load_value in _load_config_parser_mode)", <<F_load_config, F_parse_method>>, {"Loader"}),
          Stage("adapt a value of the document", <<F_check_type, F_parse_method>>, {"TypeError", "ValueError"}),
+         Stage("convert an int to float (float(val) in the leaf branch)", <<F_float_conv, F_check_type, F_parse_method>>, {"OverflowError"}),
+         Stage("deserialise a registered type", <<F_registered, F_check_type, F_parse_method>>, {"ValueError", "TypeError", "AttributeError"}),
+         Stage("deserialise a decimal.Decimal", <<F_registered_dec, F_check_type, F_parse_method>>, {"ValueError", "TypeError", "InvalidOperation"}),
+         Stage("select the sub-command named in a config (get_subcommands)", <<F_parse_method>>, {"NSKeyError"}),
          Stage("apply parsing links", <<F_links, F_parse_method>>, {"TypeError", "KeyError", "ValueError", "AttributeError", "Other"}),
          Stage("validate", <<F_validate, F_parse_method>>, {"TypeError", "KeyError"})}
     [] m = "parse_path" ->
         {Stage("resolve the path (Path(cfg_path) in parse_path)", <<F_path_resolve>>, {"PathError"}),        \* before fix 3bf3b7b: << >>, outside every handler
+         Stage("read the file (Path.get_content in parse_path)", <<F_path_read>>, {"OSError", "UnicodeError"}),   \* before fix 00b82b0: << >>, outside every handler
          Stage("load the text (load_value in _load_config_parser_mode)", <<F_load_config, F_parse_method>>, {"Loader"}),
          Stage("adapt a value of the document", <<F_check_type, F_parse_method>>, {"TypeError", "ValueError"}),
          Stage("validate", <<F_validate, F_parse_method>>, {"TypeError", "KeyError"})}
     [] m = "parse_env" ->
         {Stage("adapt the value of a variable", <<F_check_type, F_parse_method>>, {"TypeError", "ValueError"}),
+         Stage("deserialise a registered type", <<F_registered, F_check_type, F_parse_method>>, {"ValueError", "TypeError", "AttributeError"}),
+         Stage("deserialise a decimal.Decimal", <<F_registered_dec, F_check_type, F_parse_method>>, {"ValueError", "TypeError", "InvalidOperation"}),
          Stage("load a list-valued variable", <<F_env_list, F_parse_method>>, {"Loader"}),
          Stage("load the config variable", <<F_load_config, F_apply_config, F_parse_method>>, {"Loader"}),
          Stage("validate", <<F_validate, F_parse_method>>, {"TypeError", "KeyError"})}
